@@ -398,4 +398,176 @@ Proof.
   rewrite nroot_app. rewrite (G_spec c1 RI1) in N1. destruct (Z.eqb_spec (depth c1) 0); lia.
 Qed.
 
+(* ---- "decoding of the following objects is unaffected", the root's own state: the root frame changes only when the root
+   receives a child, i.e. only by a delivery.  Hence after a top-level object that was VIOLATED (reported, not delivered) the
+   unslicer stack -- the root frame alone -- is exactly what it was before the object. ---- *)
+Fixpoint ubot (st : list ufr) : option ufr :=
+  match st with [] => None | f :: rest => match rest with [] => Some f | _ :: _ => ubot rest end end.
+
+Lemma ubot_cons f rest : rest <> [] -> ubot (f :: rest) = ubot rest.
+Proof. destruct rest; [intros H; exfalso; apply H; reflexivity|reflexivity]. Qed.
+
+Lemma rooted_ne st : rooted st -> st <> [].
+Proof. intros R E. pose proof (rooted_nonempty _ R) as L. rewrite E in L. cbn in L. lia. Qed.
+
+Lemma ndeliver_app a b : ndeliver (a ++ b) = ndeliver a + ndeliver b.
+Proof. unfold ndeliver. rewrite filter_app, app_length. lia. Qed.
+
+Lemma ndeliver_nonneg a : 0 <= ndeliver a.
+Proof. unfold ndeliver. lia. Qed.
+
+Definition kr (b : option ufr) (r : uhr fr) : Prop :=
+  match r with UOk _ c' es => ndeliver es = 0 -> ubot (u_stack fr c') = b | UFatal _ _ => True end.
+
+Lemma kr_upre b es r : kr b r -> kr b (upre fr es r).
+Proof.
+  destruct r as [c' es'|]; cbn; [|auto]. intros H N. rewrite ndeliver_app in N.
+  pose proof (ndeliver_nonneg es). pose proof (ndeliver_nonneg es'). apply H. lia.
+Qed.
+
+Lemma hv_loop_bot : forall st d ic st' d' es, uhv_loop st d ic = HvOk fr st' d' es -> ubot st' = ubot st.
+Proof.
+  induction st as [|top rest IH]; intros d ic st' d' es E; cbn [Unsl.uhv_loop] in E; [discriminate|].
+  destruct (u_report (uf_st fr top)); [inversion E; subst; reflexivity|].
+  assert (E' : exists r rest', rest = r :: rest' /\ uhv_loop rest (if ic then d else d + 1) false = HvOk fr st' d' es).
+  { destruct (u_finish (uf_st fr top)); try discriminate; (destruct rest as [|r rest']; [discriminate|exists r, rest'; auto]). }
+  destruct E' as (r & rest' & -> & E'). rewrite (IH _ _ _ _ _ E'). reflexivity.
+Qed.
+
+Lemma hv_bot c io ic : kr (ubot (u_stack fr c)) (uhandle_violation c io ic).
+Proof.
+  unfold Unsl.uhandle_violation. destruct (uhv_loop _ _ _) as [st' d' es|] eqn:E; [|exact I].
+  cbn [kr uw_stack u_stack]. intros _. apply (hv_loop_bot _ _ _ _ _ _ E).
+Qed.
+
+Lemma token_bot c v : rooted (u_stack fr c) -> kr (ubot (u_stack fr c)) (uhandle_token c v).
+Proof.
+  intros R. unfold Unsl.uhandle_token. destruct (u_stack fr c) as [|top rest] eqn:Es; [exact I|].
+  destruct (rooted_cons _ _ R) as [(-> & Hr & Ho)|(Hn & Rr)].
+  - destruct (R3 (uf_st fr top) v Hr) as (f' & -> & Hr'). cbn [kr]. intros N. cbv in N. discriminate.
+  - destruct (u_child (uf_st fr top) v) as [es0 r] eqn:EC.
+    destruct r as [f'| | |k]; try exact I.
+    + cbn [kr uw_stack u_stack]. intros _. rewrite !(ubot_cons _ rest (rooted_ne _ Rr)). reflexivity.
+    + apply kr_upre. pose proof (hv_bot c false false) as H. rewrite Es in H. exact H.
+Qed.
+
+Lemma close_bot c n : rooted (u_stack fr c) -> kr (ubot (u_stack fr c)) (uhandle_close c n).
+Proof.
+  intros R. unfold Unsl.uhandle_close. destruct (u_stack fr c) as [|top rest] eqn:Es; [exact I|].
+  destruct (opt_is (uf_open fr top) n) eqn:EO; [|exact I]. cbn [negb].
+  destruct (rooted_cons _ _ R) as [(_ & _ & Ho)|(Hn & Rr)]; [exfalso; apply (opt_is_some' _ _ EO); exact Ho|].
+  pose proof (hv_bot c false true) as HV. rewrite Es in HV.
+  destruct (u_close (uf_st fr top)); try exact I; try exact HV.
+  destruct (u_finish (uf_st fr top)); try exact I; try exact HV.
+  pose proof (token_bot (uw_stack fr c (u_discard fr c) rest) a) as H. cbn [uw_stack u_stack] in H.
+  rewrite (ubot_cons top rest (rooted_ne _ Rr)). apply H. exact Rr.
+Qed.
+
+Lemma open_bot c v : u_stack fr c <> [] -> kr (ubot (u_stack fr c)) (uhandle_open c v).
+Proof.
+  intros NE. unfold Unsl.uhandle_open. cbv zeta. destruct v; try exact I. destruct (negb _); [exact I|].
+  destruct (u_stack fr c) as [|top rest] eqn:Es; [exact I|].
+  destruct (u_do_open (map (uf_st fr) (top :: rest)) (u_opentype fr c ++ [b])) as [[child|]| | |]; try exact I.
+  - destruct (u_start child (u_inbObj fr c)) as [child'| | |]; try exact I.
+    + cbn [kr uw_stack uw_inOpen uw_opentype u_stack]. intros _. try rewrite Es. apply ubot_cons. discriminate.
+    + match goal with |- kr _ (uhandle_violation ?C _ _) => pose proof (hv_bot C false false) as H end.
+      cbn [uw_stack uw_inOpen uw_opentype u_stack] in H. try rewrite Es in H. rewrite ubot_cons in H by discriminate. exact H.
+  - cbn [kr uw_opentype u_stack]. intros _. try rewrite Es. reflexivity.
+  - match goal with |- kr _ (uhandle_violation ?C _ _) => pose proof (hv_bot C true false) as H end.
+    cbn [uw_inOpen uw_opentype u_stack] in H. try rewrite Es in H. exact H.
+Qed.
+
+Lemma deliver_bot c v : rooted (u_stack fr c) -> kr (ubot (u_stack fr c)) (udeliver c v).
+Proof. intros R. unfold Unsl.udeliver. destruct (u_inOpen fr c); [apply open_bot; apply rooted_ne; exact R|apply token_bot; exact R]. Qed.
+
+Lemma hv_closed_bot c io : rooted (u_stack fr c) ->
+  match uhandle_violation c io false with
+  | UOk _ c' es => ubot (u_stack fr (uw_inOpen fr c' false)) = ubot (u_stack fr c) /\ rooted (u_stack fr (uw_inOpen fr c' false))
+  | UFatal _ _ => True
+  end.
+Proof.
+  intros R. pose proof (hv_count c io false R) as H1. unfold Unsl.uhandle_violation in *.
+  destruct (uhv_loop _ _ _) as [st' d' es|] eqn:E; [|exact I]. cbn [hr_count uw_stack uw_inOpen u_stack] in *.
+  split; [apply (hv_loop_bot _ _ _ _ _ _ E)|apply H1].
+Qed.
+
+Theorem tok_bot c ty hdr body : rooted (u_stack fr c) -> kr (ubot (u_stack fr c)) (utok_apply c ty hdr body).
+Proof.
+  intros R. unfold Unsl.utok_apply. destruct (has_body ty).
+  - unfold Unsl.ubegin_body. destruct (0 <? u_discard fr c); [cbn; auto|].
+    destruct (utaste c (u_inOpen fr c) ty hdr); try exact I; [apply deliver_bot; exact R|].
+    pose proof (hv_closed_bot c (u_inOpen fr c) R) as H. destruct (uhandle_violation c (u_inOpen fr c) false); [|exact I].
+    cbn [kr]. intros _. apply H.
+  - unfold Unsl.ustep_nobody_hr. destruct ((ty =? tok_OPEN) && u_inOpen fr c); [exact I|].
+    set (c1 := if ty =? tok_OPEN then _ else c).
+    assert (St1 : u_stack fr c1 = u_stack fr c) by (unfold c1; destruct (ty =? tok_OPEN); reflexivity).
+    match goal with |- kr _ (match ?A with TsFatal _ _ => _ | TsGo _ _ _ _ => _ end) => set (T := A) end.
+    assert (HT : match T with TsFatal _ _ => True
+                 | TsGo _ c2 _ _ => ubot (u_stack fr c2) = ubot (u_stack fr c) /\ rooted (u_stack fr c2) end).
+    { subst T. destruct (_ || _); [rewrite St1; auto|].
+      destruct (utaste c1 (u_inOpen fr c) ty hdr); try exact I; [rewrite St1; auto|].
+      assert (R1' : rooted (u_stack fr c1)) by (rewrite St1; exact R).
+      pose proof (hv_closed_bot c1 (u_inOpen fr c1) R1') as H. destruct (uhandle_violation c1 (u_inOpen fr c1) false); [|exact I].
+      rewrite St1 in H. exact H. }
+    clearbody T. destruct T as [esf|c2 es2 rej]; [exact I|]. destruct HT as (B2 & Rt2).
+    assert (SAME : kr (ubot (u_stack fr c)) (UOk fr c2 es2)) by (cbn; auto).
+    assert (DEL : forall v, kr (ubot (u_stack fr c)) (upre fr es2 (udeliver c2 v))).
+    { intros v. apply kr_upre. rewrite <- B2. apply deliver_bot. exact Rt2. }
+    destruct (ty =? tok_OPEN). { destruct rej; [destruct (u_inOpen fr _)|]; cbn [kr uw_inOpen uw_stack uw_opentype u_stack]; auto. }
+    destruct (ty =? tok_CLOSE).
+    { destruct (hd_close_fatal _ _); [exact I|]. destruct (0 <? _); [cbn [kr uw_stack u_stack]; auto|].
+      apply kr_upre. rewrite <- B2. apply close_bot. exact Rt2. }
+    destruct (ty =? tok_ABORT).
+    { destruct rej; [exact SAME|]. destruct hd_abort_in_index; apply kr_upre.
+      - pose proof (hv_closed_bot c2 (u_inOpen fr c2) Rt2) as H. destruct (uhandle_violation c2 (u_inOpen fr c2) false); [|exact I].
+        cbn [kr]. intros _. rewrite <- B2. apply H.
+      - rewrite <- B2. apply hv_bot. }
+    destruct (ty =? tok_INT). { destruct rej; [exact SAME|apply DEL]. }
+    destruct (ty =? tok_NEG). { destruct rej; [exact SAME|apply DEL]. }
+    destruct (ty =? tok_VOCAB). { destruct (uvocab_get _ _); [|exact I]. destruct rej; [exact SAME|apply DEL]. }
+    destruct (ty =? tok_PING). { cbn [kr]. auto. }
+    destruct (ty =? tok_PONG); [exact SAME|exact I].
+Qed.
+
+Lemma seq_bot : forall ts c k, RI c -> hd_abort_in_index = true -> depth c = k -> 0 < k -> inside k ts ->
+  kr (ubot (u_stack fr c)) (uapply_all c ts).
+Proof.
+  induction ts as [|[[ty hdr] body] ts IH]; intros c k HRI FA Dk Kp IN; [destruct IN|].
+  cbn [Unsl.uapply_all]. assert (PRE : 0 < depth c) by lia. pose proof (tok_count c ty hdr body HRI FA (or_introl PRE)) as TC.
+  assert (R : rooted (u_stack fr c)) by (destruct HRI as (_ & R & _); exact R).
+  pose proof (tok_bot c ty hdr body R) as TB.
+  destruct (utok_apply c ty hdr body) as [c1 es1|] eqn:E1; [|exact I]. cbn [hr_count] in TC. destruct TC as (RI1 & N1).
+  pose proof (tok_depth _ _ _ _ _ _ HRI E1) as D1. cbn [kr] in TB.
+  destruct ts as [|t' r].
+  - cbn [Unsl.uapply_all upre kr]. rewrite app_nil_r. exact TB.
+  - cbn [inside] in IN. destruct IN as (Kp' & IN').
+    assert (Dk1 : depth c1 = k + utok_delta ty) by lia. specialize (IH c1 (k + utok_delta ty) RI1 FA Dk1 Kp' IN').
+    destruct (uapply_all c1 (t' :: r)) as [c' es|]; [|exact I]. cbn [upre kr] in *. intros N. rewrite ndeliver_app in N.
+    pose proof (ndeliver_nonneg es1). pose proof (ndeliver_nonneg es). rewrite IH by lia. apply TB. lia.
+Qed.
+
+(* THE THEOREM: one top-level sequence that ends in a reported violation leaves the unslicer stack (the root frame) exactly as it was *)
+Theorem unsl_violated_object_keeps_root c h b body : hd_abort_in_index = true -> uat_top fr c -> RI c -> inside 1 body ->
+  hr_count (uapply_all c ((tok_OPEN, h, b) :: body)) (fun c' es => nviolation es = 1 -> u_stack fr c' = u_stack fr c).
+Proof.
+  intros FA T HRI IN. pose proof (unsl_exactly_one c h b body FA T HRI IN) as EX.
+  cbn [Unsl.uapply_all] in *.
+  pose proof (tok_count c tok_OPEN h b HRI FA (or_intror eq_refl)) as TC.
+  assert (R : rooted (u_stack fr c)) by (destruct HRI as (_ & R & _); exact R).
+  pose proof (tok_bot c tok_OPEN h b R) as TB.
+  destruct (utok_apply c tok_OPEN h b) as [c1 es1|] eqn:E1; [|exact I]. cbn [hr_count] in TC. destruct TC as (RI1 & N1).
+  pose proof (tok_depth _ _ _ _ _ _ HRI E1) as D1. change (utok_delta tok_OPEN) with 1 in D1.
+  assert (D0 : depth c = 0) by (destruct T as (A & B & C); unfold uopen_depth; rewrite A, B, C; reflexivity).
+  assert (D11 : depth c1 = 1) by lia. assert (P01 : 0 < 1) by lia.
+  pose proof (seq_bot body c1 1 RI1 FA D11 P01 IN) as SB.
+  destruct (uapply_all c1 body) as [c' es|]; [|exact I]. cbn [upre hr_count kr] in *.
+  destruct EX as (NR & T' & _). intros NV.
+  assert (ND : ndeliver (es1 ++ es) = 0) by (rewrite nroot_split in NR; lia).
+  rewrite ndeliver_app in ND. pose proof (ndeliver_nonneg es1). pose proof (ndeliver_nonneg es).
+  assert (BE : ubot (u_stack fr c') = ubot (u_stack fr c)) by (rewrite SB by lia; apply TB; lia).
+  destruct T as (_ & _ & L), T' as (_ & _ & L').
+  destruct (u_stack fr c) as [|r0 [|? ?]]; try discriminate. destruct (u_stack fr c') as [|r1 [|? ?]]; try discriminate.
+  cbn in BE. inversion BE. reflexivity.
+Qed.
+
 End Once.
